@@ -7,6 +7,8 @@ package main
 
 import (
 	"fmt"
+	"strconv"
+	"strings"
 
 	"github.com/nelhage/taktician/symmetry"
 	"github.com/nelhage/taktician/tak"
@@ -123,6 +125,14 @@ func pseudoSymmetric(a *aboard) bool {
 }
 
 func runC15(c *ctx) {
+	if c.tier == "replay" {
+		f := strings.Fields(readReplay(c).Input)
+		if len(f) >= 2 {
+			size, _ := strconv.Atoi(f[0])
+			emitC15(c, size, decodeMoves(f[1]), "replay", true)
+		}
+		return
+	}
 	r := c.r
 	for g := 0; g < 150*c.scale; g++ {
 		size := 3 + r.Intn(6)
